@@ -84,13 +84,19 @@ impl Keys {
         for l in &a.labels {
             keys.push(self.ref_key(l));
         }
-        let mut n = Nfa { starts: a.start_set(), accept: vec![false; a.n], trans: vec![vec![]; a.n] };
+        // keep only "core" states (those with labelled out-edges, and the accepting state) in the
+        // sets: epsilon-only Thompson states carry no information once closures are taken
+        let core = |s: usize| !a.edges[s].is_empty() || s == a.accept;
+        let starts: BTreeSet<usize> = a.start_set().into_iter().filter(|s| core(*s)).collect();
+        let mut n = Nfa { starts, accept: vec![false; a.n], trans: vec![vec![]; a.n] };
         n.accept[a.accept] = true;
         // closure cache per target
-        let mut cl: HashMap<usize, BTreeSet<usize>> = HashMap::new();
+        let mut cl: HashMap<usize, Vec<usize>> = HashMap::new();
         for s in 0..a.n {
             for (l, t) in &a.edges[s] {
-                let c = cl.entry(*t).or_insert_with(|| a.closure(&BTreeSet::from([*t])));
+                let c = cl
+                    .entry(*t)
+                    .or_insert_with(|| a.closure(&BTreeSet::from([*t])).into_iter().filter(|s| core(*s)).collect());
                 for u in c.iter() {
                     n.trans[s].push((keys[*l], *u));
                 }
